@@ -77,7 +77,9 @@ Finished(h, a) == a \in h.ended \/ a \in h.cancel \/ (K(a) = "suspend" /\ a \in 
 Unfinished(h) == {O(a) : a \in {x \in h.called : IsClosureOp(x) /\ ~Finished(h, x) /\ h.rets[x] \in {0, NoRet}}}
 
 \* pipe() keeps a strong reference to its Desync until the output stream has been dropped and the pipe has shut down
-HeldByPipe(h, o) == \E op \in Ops : K(op) = "pipe" /\ O(op) = o /\ op \in h.called
+\* (pipe_in only ever holds a temporary strong reference, while one of its wake-ups is scheduling a poll: the drop of the
+\* harness's reference is then not the drop of the last owner; that the value is freed in the end is checked at quiescence)
+HeldByPipe(h, o) == \E op \in Ops : K(op) \in {"pipe", "pipe_in"} /\ O(op) = o /\ op \in h.called
 
 (***************************************************************************)
 (* call / ret of an API call by thread t                                   *)
@@ -274,8 +276,12 @@ ObsQuiescent(h, qs, single) ==
                                         /\ h.pfin[p] < Len(h.psent[p]), "C11:items-unprocessed")
       hp2 == Viol(hp1, \E p \in Pipes : created(p) /\ PKind(p) = "pipe_in" /\ PoolAvailable(h) /\ ~pstuck(p)
                                         /\ (("in_closed" \in h.pflags[p] /\ alive(p)) \/ "late_event" \in h.pflags[p]) /\ ~released(p), "C11:not-released")
+      \* C11: pipe_in holds only a weak reference: once the owner's drop has returned the value is destroyed
+      hp2b == Viol(hp2, \E p \in Pipes : created(p) /\ PKind(p) = "pipe_in" /\ h.freed[PObj(p)] = 0
+                                         /\ (\E d \in Ops : K(d) = "drop_obj" /\ O(d) = PObj(p) /\ h.rets[d] = 0)
+                                         /\ ~(\E q \in Pipes : PKind(q) = "pipe" /\ PObj(q) = PObj(p) /\ h.rets[PipeOp(q)] = 0), "C11:kept-alive")
       \* C12: a reading consumer is never left waiting while an input is unprocessed/undelivered or the input has ended
-      hp3 == Viol(hp2, \E p \in Pipes : created(p) /\ PKind(p) = "pipe" /\ PoolAvailable(h) /\ ~pstuck(p) /\ ~closedOut(p) /\ reading(p)
+      hp3 == Viol(hp2b, \E p \in Pipes : created(p) /\ PKind(p) = "pipe" /\ PoolAvailable(h) /\ ~pstuck(p) /\ ~closedOut(p) /\ reading(p)
                                         /\ (h.pout[p] < Len(h.psent[p]) \/ "in_closed" \in h.pflags[p]), "C12:consumer-stuck")
       \* C16: once the output stream has been dropped the pipe shuts down without any further input
       hp4 == Viol(hp3, \E p \in Pipes : created(p) /\ PKind(p) = "pipe" /\ PoolAvailable(h) /\ ~pstuck(p) /\ closedOut(p) /\ ~released(p), "C16:not-released")
